@@ -34,7 +34,7 @@ use std::collections::{BTreeMap, BTreeSet, HashMap};
 use std::ffi::CString;
 use std::rc::Rc;
 use yash_env::option::{Option as ShellOption, State};
-use yash_env::path::PathBuf;
+use yash_env::path::{Component, Path, PathBuf};
 use yash_env::semantics::expansion::attr::{AttrChar, AttrField, Origin};
 use yash_env::semantics::expansion::split::{Ifs, split_into};
 use yash_env::source::Location;
@@ -115,7 +115,12 @@ fn build_tree(state: &RefCell<SystemState>, tree: &[Entry]) -> Result<(), String
     let root = new_dir(0o755);
     for e in tree {
         let (path, inode) = match e {
-            Entry::File(p) => (p, Rc::new(RefCell::new(Inode::new(b"x".to_vec())))),
+            Entry::File(p) => {
+                // the mode of a file plays no role for matching: vary it with the name
+                let mut inode = Inode::new(b"x".to_vec());
+                inode.permissions = Mode::from_bits_retain([0o644, 0o000, 0o400, 0o755, 0o200, 0o111][p.len() % 6] as _);
+                (p, Rc::new(RefCell::new(inode)))
+            }
             Entry::Dir(p, m) => (p, new_dir(*m)),
             Entry::Link(p, x) => (
                 p,
@@ -252,6 +257,105 @@ fn resolve_dir(state: &RefCell<SystemState>, node: &Rc<RefCell<Inode>>, path: &s
 
 // ------------------------------------------------------------------------------------------
 // system oracles
+
+// ------------------------------------------------------------------------------------------
+// the same two oracles derived by hand from the inode tree and the mode bits
+//
+// The virtual system's rules, for the owning user (every virtual process owns every inode): looking a
+// name up in a directory needs the owner's search bit (0o100) of that directory and nothing else; `.`
+// and `..` need a directory; a trailing `/` or `/.` needs a directory; `opendir` needs a directory (no
+// read permission is asked for) and a free descriptor; `fstatat` follows a final symbolic link up to
+// 8 times, relative to the link's directory.  What the *system* answers is compared with this on
+// every query (`FAIL:system-differs-from-mode-bits`), and the dump that goes to the model is this one,
+// so a wrong bit test in the look-up shows as impl ≠ model as well.
+
+fn hand_get(state: &RefCell<SystemState>, path: &Path) -> Option<Rc<RefCell<Inode>>> {
+    let root = Rc::clone(&state.borrow().file_system.root);
+    let mut nodes = vec![root];
+    for component in path.components() {
+        let name = match component {
+            Component::Normal(name) => name,
+            Component::RootDir => continue,
+            Component::CurDir | Component::ParentDir => {
+                if !matches!(nodes.last().unwrap().borrow().body, FileBody::Directory { .. }) {
+                    return None;
+                }
+                if component == Component::ParentDir && nodes.len() > 1 {
+                    nodes.pop();
+                }
+                continue;
+            }
+        };
+        let child = {
+            let node = nodes.last().unwrap().borrow();
+            let FileBody::Directory { files } = &node.body else { return None };
+            // owner's search permission, whatever group and others may do
+            if node.permissions.bits() as u32 & 0o100 == 0 {
+                return None;
+            }
+            Rc::clone(files.get(name)?)
+        };
+        nodes.push(child);
+    }
+    let node = nodes.pop().unwrap();
+    let bytes = path.as_unix_str().as_bytes();
+    if (bytes.ends_with(b"/") || bytes.ends_with(b"/.")) && !matches!(node.borrow().body, FileBody::Directory { .. }) {
+        return None;
+    }
+    Some(node)
+}
+
+fn hand_abs(path: &str) -> PathBuf {
+    let p = Path::new(UnixStr::new(path));
+    if p.is_absolute() { p.to_path_buf() } else { Path::new(UnixStr::new("/t")).join(p) }
+}
+
+fn hand_exists(state: &RefCell<SystemState>, path: &str) -> bool {
+    if path.contains('\0') {
+        return false;
+    }
+    let mut full = hand_abs(path);
+    for _ in 0..8 {
+        let Some(node) = hand_get(state, &full) else { return false };
+        let target = match &node.borrow().body {
+            FileBody::Symlink { target } => target.clone(),
+            _ => return true,
+        };
+        full.pop();
+        full.push(&target);
+    }
+    false
+}
+
+fn hand_list(state: &RefCell<SystemState>, dir: &str, fd_limit: bool) -> Option<Vec<String>> {
+    if dir.contains('\0') || fd_limit {
+        return None;
+    }
+    let node = hand_get(state, &hand_abs(dir))?;
+    let node = node.borrow();
+    let FileBody::Directory { files } = &node.body else { return None };
+    let mut names: Vec<String> = vec![".".into(), "..".into()];
+    names.extend(files.keys().filter_map(|k| k.to_str().map(|s| s.to_string())));
+    names.sort();
+    Some(names)
+}
+
+/// both oracles, with the comparison
+fn exists(env: &VEnv, state: &RefCell<SystemState>, d: &mut Direct, path: &str) -> bool {
+    let h = hand_exists(state, path);
+    if sys_exists(env, path) != h && d.verdicts.len() < 4 {
+        d.verdicts.push(format!("system-differs-from-mode-bits:fstatat:{}", enc_str(path)));
+    }
+    h
+}
+
+fn list(env: &VEnv, state: &RefCell<SystemState>, d: &mut Direct, dir: &str, fd_limit: bool) -> Option<Vec<String>> {
+    let h = hand_list(state, dir, fd_limit);
+    if sys_list(env, state, dir) != h && d.verdicts.len() < 4 {
+        d.verdicts.push(format!("system-differs-from-mode-bits:opendir:{}", enc_str(dir)));
+    }
+    h
+}
 
 fn sys_exists(env: &VEnv, path: &str) -> bool {
     let Ok(c) = CString::new(path) else { return false };
@@ -780,7 +884,14 @@ fn field_work(
         let mut next: BTreeSet<String> = BTreeSet::new();
         for p in &prefixes {
             let dir = if p.is_empty() { ".".to_string() } else { p.clone() };
-            let listing = listing_cache.entry(dir.clone()).or_insert_with(|| sys_list(env, state, &dir)).clone();
+            let listing = match listing_cache.get(&dir) {
+                Some(l) => l.clone(),
+                None => {
+                    let l = list(env, state, d, &dir, prim.fd_limit);
+                    listing_cache.insert(dir.clone(), l.clone());
+                    l
+                }
+            };
             let mut cands: BTreeSet<String> = texts[i].iter().cloned().collect();
             if let Some(ns) = &listing {
                 d.list.insert(dir.clone(), ns.clone());
@@ -788,14 +899,14 @@ fn field_work(
                 cands.extend(ns.iter().filter(|n| *n != "." && *n != "..").cloned());
                 for u in names_all {
                     let path = format!("{p}{u}");
-                    if sys_exists(env, &path) {
+                    if exists(env, state, d, &path) {
                         d.exist.insert(path);
                     }
                 }
             }
             for c in cands {
                 let path = format!("{p}{c}");
-                if sys_exists(env, &path) {
+                if exists(env, state, d, &path) {
                     d.exist.insert(path.clone());
                 }
                 if i + 1 < k {
@@ -837,7 +948,7 @@ fn field_work(
                     Kind::Literal(s) => vec![s.clone()],
                     Kind::Pattern(pat) => {
                         let dir = if p.is_empty() { ".".to_string() } else { p.clone() };
-                        match listing_cache.get(&dir).cloned().unwrap_or_else(|| sys_list(env, state, &dir)) {
+                        match listing_cache.get(&dir).cloned().unwrap_or_else(|| list(env, state, d, &dir, prim.fd_limit)) {
                             None => vec![],
                             Some(ns) => ns.into_iter().filter(|n| n != "." && n != ".." && pat.is_match(n)).collect(),
                         }
@@ -848,7 +959,7 @@ fn field_work(
                         nf.push(format!("{p}{n}/"));
                     } else {
                         let path = format!("{p}{n}");
-                        if sys_exists(env, &path) {
+                        if exists(env, state, d, &path) {
                             expected.insert(path);
                         }
                     }
@@ -1043,6 +1154,22 @@ const CONT_BELOW: [&str; 9] = ["-", ".", " ", "+", ",", "!", "#", "%", "-"];
 const CONT_ABOVE: [&str; 8] = ["0", "_", "a", "~", "\u{e9}", "\u{ff5e}", "\u{10000}", ":"];
 const TAILS: [&str; 7] = ["", "bar", "d", "x", "\u{e9}", "A1", "9"];
 
+/// Directory modes over the whole range that matters: owner/group/other × r/x.  Only the owner's
+/// search bit decides whether names below can be looked up (the virtual process owns every inode);
+/// `plain` trees draw from the searchable modes only (so the oracles stay consistent).
+const MODES_SEARCHABLE: [u32; 12] = [0o700, 0o750, 0o710, 0o711, 0o500, 0o300, 0o100, 0o555, 0o111, 0o751, 0o701, 0o311];
+const MODES_UNSEARCHABLE: [u32; 10] = [0o644, 0o400, 0o200, 0o000, 0o444, 0o070, 0o007, 0o055, 0o666, 0o011];
+
+fn gen_mode(r: &mut Rng, plain: bool) -> u32 {
+    match r.below(10) {
+        0..=4 => 0o755,
+        5 | 6 => *r.pick(&MODES_SEARCHABLE),
+        7 => if plain { 0o755 } else { *r.pick(&MODES_UNSEARCHABLE) },
+        8 => if plain { *r.pick(&MODES_SEARCHABLE) } else { *r.pick(&MODES_UNSEARCHABLE) },
+        _ => 0o755,
+    }
+}
+
 fn gen_dir(r: &mut Rng, plain: bool, prefix: &str, depth: usize, out: &mut Vec<Entry>) {
     let n = if depth == 0 { 4 + r.below(6) } else { 1 + r.below(5) };
     let mut used: Vec<String> = vec![];
@@ -1057,16 +1184,7 @@ fn gen_dir(r: &mut Rng, plain: bool, prefix: &str, depth: usize, out: &mut Vec<E
         let roll = r.below(20);
         let want_dir = (name == "sub" && roll < 16) || roll < 8;
         if want_dir && depth < 2 {
-            let mode = if plain {
-                0o755
-            } else {
-                match r.below(10) {
-                    0 => 0o644,
-                    1 => 0o311,
-                    2 => 0o000,
-                    _ => 0o755,
-                }
-            };
+            let mode = gen_mode(r, plain);
             out.push(Entry::Dir(path.clone(), mode));
             let start = out.len();
             gen_dir(r, plain, &format!("{path}/"), depth + 1, out);
@@ -1097,7 +1215,7 @@ fn gen_dir(r: &mut Rng, plain: bool, prefix: &str, depth: usize, out: &mut Vec<E
                     }
                     used.push(comp_name.clone());
                     let comp = format!("{prefix}{comp_name}");
-                    out.push(Entry::Dir(comp.clone(), 0o755));
+                    out.push(Entry::Dir(comp.clone(), gen_mode(r, plain)));
                     for (k, is_dir) in &kids {
                         if *is_dir && depth + 1 < 2 {
                             out.push(Entry::Dir(format!("{comp}/{k}"), 0o755));
